@@ -32,9 +32,17 @@ def proved_bound(table, prec, flagged, xs, cs, maj, cmax):
             amp *= max(Fraction(1), 2 * n / dmin)
     return 2 * K * eps * maj, eta * nterms * (cmax + 1) * (nd + 2) * amp
 
+def interior(table, xs, cs):
+    """hypothesis AllInterior, including the monotonicity of the knots the recurrences touch (indices c-order .. c+order+1)"""
+    if not V.interior(table, xs, cs): return False
+    for d, c in zip(table["dims"], cs):
+        k, o = d["knots"], d["order"]
+        if any(not (k[j] <= k[j + 1]) for j in range(c - o, c + o + 1)): return False
+    return True
+
 def check_proved(ctx, table, c, prec, flagged, xs, cs, v, exact, maj, cmax, st, what):
     """|impl - exact derivative| <= proved envelope at an interior point (hypothesis AllInterior)."""
-    if v != v or math.isinf(v) or not V.interior(table, xs, cs): return
+    if v != v or math.isinf(v) or not interior(table, xs, cs): return
     b = proved_bound(table, prec, flagged, xs, cs, maj, cmax)
     if b is None: return
     bound, slack = b
@@ -61,7 +69,7 @@ def proved_line(ctx, table, c, i, m, st):
         flagged = [k == 1 for k in ks]; rest = w[2 + nd:]
     xs = [E.dbl(z) for z in rest[:nd]]; cs = [int(z) for z in rest[nd:2 * nd]]
     spec, mag, cmax, maj = Fraction(mw[2]), Fraction(mw[3]), Fraction(mw[4]), Fraction(mw[5])
-    if V.interior(table, xs, cs):
+    if interior(table, xs, cs):
         st["majorant_eq_spec_magnitude"] = st.get("majorant_eq_spec_magnitude", 0) + (1 if maj == mag else 0)
         st["majorant_cases"] = st.get("majorant_cases", 0) + 1
     check_proved(ctx, table, c, w[1], flagged, xs, cs, E.dbl(i), spec, maj, cmax, st, "ndsplineeval bitmask" if w[0] == "V" else "ndsplineeval_deriv orders<=1")
@@ -100,7 +108,6 @@ def line_checker(ctx, table, c, i, m, n, st):
 def gradient_pass(ctx, mode, st):
     """Every lane of ndsplineeval_gradient against the exact lane and the proved majorant (C02_gradient_rounding_envelope):
     a second driver run on `GX` lines made from the (distinct consecutive) G lines of the case file."""
-    import struct
     base = os.path.join(ctx.scratch, "C02" + mode)
     cases, impl = base + ".in", base + ".impl"
     if not (os.path.exists(cases) and os.path.exists(impl)): return
@@ -125,19 +132,27 @@ def gradient_pass(ctx, mode, st):
         m = out[k]
         if kind == "T":
             table = E.parse_table(c.split()); st["_table_line"] = c
-            cf = [struct.unpack("f", struct.pack("I", int(z)))[0] for z in c.split()[-table["ncoef"]:]] if table["ncoef"] else []
-            cmax = max([Fraction(abs(x)) for x in cf if x == x and not math.isinf(x)] + [Fraction(0)])
+            cmax = table_cmax(table, c)
             continue
-        if m in ("refused", "inexact", "bad-input") or i == "refused": continue
-        w = c.split(); nd = table["ndim"]; prec = w[1]
-        xs = [E.dbl(z) for z in w[2:2 + nd]]; cs = [int(z) for z in w[2 + nd:2 + 2 * nd]]
-        if any(d["order"] == 0 for d in table["dims"]): continue    # hypothesis `hord` of C02_gradient_rounding_envelope
-        mw = m.split(); iw = i.split()
-        if len(mw) != 2 * (nd + 1) or len(iw) != nd + 1: continue
-        for lane in range(nd + 1):
-            flagged = [lane == d + 1 for d in range(nd)]
-            st["gradient_lanes_checked"] = st.get("gradient_lanes_checked", 0) + 1
-            check_proved(ctx, table, c + " lane %d" % lane, prec, flagged, xs, cs, E.dbl(iw[lane]), Fraction(mw[2 * lane]), Fraction(mw[2 * lane + 1]), cmax, st, "gradient lane %d" % lane)
+        judge_lanes(ctx, table, c, i, m, cmax, st)
+
+def table_cmax(table, tline):
+    import struct
+    cf = [struct.unpack("f", struct.pack("I", int(z)))[0] for z in tline.split()[-table["ncoef"]:]] if table["ncoef"] else []
+    return max([Fraction(abs(x)) for x in cf if x == x and not math.isinf(x)] + [Fraction(0)])
+
+def judge_lanes(ctx, table, c, i, m, cmax, st):
+    """one G line: implementation lanes `i`, driver's `GX` answer `m` (exact lane, majorant pairs)"""
+    if m in ("refused", "inexact", "bad-input") or i == "refused": return
+    w = c.split(); nd = table["ndim"]; prec = w[1]
+    xs = [E.dbl(z) for z in w[2:2 + nd]]; cs = [int(z) for z in w[2 + nd:2 + 2 * nd]]
+    if any(d["order"] == 0 for d in table["dims"]): return    # hypothesis `hord` of C02_gradient_rounding_envelope
+    mw = m.split(); iw = i.split()
+    if len(mw) != 2 * (nd + 1) or len(iw) != nd + 1: return
+    for lane in range(nd + 1):
+        flagged = [lane == d + 1 for d in range(nd)]
+        st["gradient_lanes_checked"] = st.get("gradient_lanes_checked", 0) + 1
+        check_proved(ctx, table, c, prec, flagged, xs, cs, E.dbl(iw[lane]), Fraction(mw[2 * lane]), Fraction(mw[2 * lane + 1]), cmax, st, "gradient lane %d" % lane)
 
 def run(ctx):
     ctx.audit()
@@ -160,4 +175,22 @@ def run(ctx):
     ctx.assumptions += ["rounding: proved for bitmask derivatives, gradient lanes and ndsplineeval_deriv with orders <= 1 at interior points without underflow/overflow (C02_rounded_deriv_near_spec_partial, C02_gradient_rounding_envelope, C02_deriv_orders_rounding_envelope_partial: |impl - exact| <= 2*K*eps*majorant, the majorant computed by the driver from the theorem's own definition; an absolute underflow allowance is added, it is not part of the theorem); margins, knots of the partially supported range and derivative orders >= 2 stay with the measured envelope (K as in C01, magnitudes with |a|+|b| per difference)", "'true derivative' = derivative of the selected polynomial piece (one-sided convention of C01)"]
 
 def replay(ctx, path):
-    V.replay(ctx, path, line_checker=line_checker)
+    st = {"values": 0, "bit_mismatch": 0, "worst_ratio": 0.0, "distinct": set(), "known_cases": 0, "lookups": 0}
+    def handler(table, tw, c, i, m):
+        st["_table_line"] = tw
+        k = c[:1]
+        if k in "VD": line_checker(ctx, table, c, i, m, 0, st)
+        elif k == "S":
+            bad = E.lookup_oracle(table, [E.dbl(z) for z in c.split()[1:]], i)
+            if bad: ctx.report("lookup:" + bad, {"table": table, "impl": i, "table_line": tw, "case_line": c}, "lookup oracle: " + bad)
+        elif k == "G":
+            if i.strip() != m.strip():
+                ctx.tie_ok = False; ctx.broken.append({"kind": "correspondence: gradient lanes bits != model", "case_line": c, "impl": i, "model": m})
+            gin = os.path.join(ctx.scratch, "replay.gx.in"); gout = gin + ".model"
+            with open(gin, "w") as f: f.write(tw.strip() + "\n" + "GX " + " ".join(c.split()[2:]) + "\n")
+            if ctx.run_driver("EV", gin, gout):
+                out = [l.strip() for l in open(gout)]
+                if len(out) >= 2: judge_lanes(ctx, table, c, i, out[1], table_cmax(table, tw), st)
+        elif (i.strip() != m.split()[0]) if m.split() else True:
+            ctx.tie_ok = False; ctx.broken.append({"kind": "correspondence bits", "case_line": c, "impl": i, "model": m})
+    if not E.replay_case(ctx, path, handler): run(ctx)
